@@ -3,6 +3,7 @@ package progen
 import (
 	"fmt"
 	"strconv"
+	"strings"
 )
 
 // StageIO is what a stage function sees for one job.
@@ -19,6 +20,96 @@ type StageIO struct {
 	// WriteFile lets a stage function create files (real runs); in the
 	// reference interpreter it records the logical write.
 	WriteFile func(path string, content string)
+	// CheckFile (real runs) verifies that a file or directory named in an
+	// argument is present and intact; problems are recorded by the harness.
+	CheckFile func(path string)
+	// TempPath is the job's temporary directory (real runs).
+	TempPath string
+}
+
+// FileContent is what FILEW writes into the file at path p: self-describing,
+// so that a reader can verify it without knowing the writer.
+func FileContent(p string, pad int) string {
+	return "FILEW\n" + p + "\n" + strings.Repeat("x", pad)
+}
+
+// collectPaths returns every absolute-path string inside a value (including
+// object keys).
+func collectPaths(v *Val, out []string) []string {
+	if v == nil {
+		return out
+	}
+	switch v.K {
+	case VStr:
+		if strings.HasPrefix(v.S, "/") {
+			out = append(out, v.S)
+		}
+	case VArr:
+		for _, e := range v.A {
+			out = collectPaths(e, out)
+		}
+	case VObj:
+		for _, k := range v.Keys() {
+			out = collectPaths(v.O[k], out)
+		}
+	}
+	return out
+}
+
+// filewValue builds the value of a FILEW output of type t whose files are
+// named after tag under dir, writing each file.
+func filewValue(p *Program, io *StageIO, t *T, n int64, dir, tag string, pad *int) *Val {
+	write := func(name string) *Val {
+		pth := dir + "/" + name
+		if dir == "" {
+			pth = "@" + name
+		}
+		*pad += 13
+		if io.WriteFile != nil {
+			io.WriteFile(pth, FileContent(pth, *pad))
+		}
+		return Str(pth)
+	}
+	switch t.K {
+	case TFiletype:
+		return write(tag + "." + t.Name)
+	case TFile:
+		return write(tag)
+	case TPath:
+		d := tag + "_dir"
+		write(d + "/inner.dat")
+		if dir == "" {
+			return Str("@" + d)
+		}
+		return Str(dir + "/" + d)
+	case TString:
+		return write(tag + ".str.dat")
+	case TMap:
+		return Obj(map[string]*Val{"path": write(tag + ".um.dat"), "n": Int(n)})
+	case TInt:
+		return Int(n)
+	case TArray:
+		a := &Val{K: VArr}
+		for i := int64(0); i < n; i++ {
+			a.A = append(a.A, filewValue(p, io, t.Elem, n, dir, fmt.Sprintf("%s_%d", tag, i), pad))
+		}
+		return a
+	case TTMap:
+		o := Obj(nil)
+		for i := int64(0); i < n; i++ {
+			k := "k" + strconv.FormatInt(i, 10)
+			o.O[k] = filewValue(p, io, t.Elem, n, dir, tag+"_"+k, pad)
+		}
+		return o
+	case TStruct:
+		sd := p.Struct(t.Name)
+		o := Obj(nil)
+		for _, f := range sd.Fields {
+			o.O[f.Name] = filewValue(p, io, f.T, n, dir, tag+"_"+f.Name, pad)
+		}
+		return o
+	}
+	return Null()
 }
 
 // StageResult is what the stage function produced.
@@ -138,6 +229,114 @@ func Exec(p *Program, io *StageIO) (*StageResult, error) {
 		outs[st.Outs[0].Name] = Int(s)
 	case "COND":
 		outs[st.Outs[0].Name] = Bool(argOf(io, st.Ins[0].Name).Int() > 0)
+	case "FILEW":
+		// every output is produced from n; file-typed leaves name files the
+		// stage writes under its own files directory.  Top-level file outputs
+		// use the path mrp pre-populated in _outs.
+		n := argOf(io, "n").Int()
+		pad := 100
+		for _, o := range st.Outs {
+			if io.OutsTemplate != nil && io.OutsTemplate.K == VObj {
+				if tv := io.OutsTemplate.O[o.Name]; tv != nil && tv.K == VStr && (o.T.K == TFiletype || o.T.K == TFile) {
+					pad += 13
+					if io.WriteFile != nil {
+						io.WriteFile(tv.S, FileContent(tv.S, pad))
+					}
+					outs[o.Name] = Str(tv.S)
+					continue
+				}
+			}
+			outs[o.Name] = filewValue(p, io, o.T, n, io.FilesPath, o.Name, &pad)
+		}
+		if io.WriteFile != nil && io.FilesPath != "" {
+			// files no output names
+			io.WriteFile(io.FilesPath+"/scratch.dat", FileContent(io.FilesPath+"/scratch.dat", 41))
+			for _, o := range st.Outs {
+				if v := outs[o.Name]; v != nil && v.K == VStr && strings.HasPrefix(v.S, io.FilesPath+"/") {
+					// a sibling whose name extends a referenced file's name
+					io.WriteFile(v.S+".idx", FileContent(v.S+".idx", 17))
+					break
+				}
+			}
+			if io.TempPath != "" {
+				io.WriteFile(io.TempPath+"/work.tmp", FileContent(io.TempPath+"/work.tmp", 29))
+			}
+		}
+	case "SPLITW":
+		// split stage writing files in every phase
+		n := argOf(io, "n").Int()
+		switch io.Phase {
+		case "split":
+			var chunks []*Val
+			for i := int64(0); i < n; i++ {
+				chunks = append(chunks, Obj(map[string]*Val{"i": Int(i)}))
+			}
+			if io.WriteFile != nil && io.TempPath != "" {
+				io.WriteFile(io.TempPath+"/split.tmp", FileContent(io.TempPath+"/split.tmp", 5))
+			}
+			return &StageResult{Chunks: chunks}, nil
+		case "main":
+			pad := 60
+			for _, o := range st.ChunkOuts {
+				if io.OutsTemplate != nil && io.OutsTemplate.K == VObj {
+					if tv := io.OutsTemplate.O[o.Name]; tv != nil && tv.K == VStr {
+						if io.WriteFile != nil {
+							io.WriteFile(tv.S, FileContent(tv.S, pad))
+						}
+						outs[o.Name] = Str(tv.S)
+						continue
+					}
+				}
+				outs[o.Name] = filewValue(p, io, o.T, n, io.FilesPath, o.Name, &pad)
+			}
+			if io.WriteFile != nil && io.FilesPath != "" {
+				io.WriteFile(io.FilesPath+"/chunk_scratch.dat", FileContent(io.FilesPath+"/chunk_scratch.dat", 7))
+				if io.TempPath != "" {
+					io.WriteFile(io.TempPath+"/chunk.tmp", FileContent(io.TempPath+"/chunk.tmp", 9))
+				}
+			}
+			for _, o := range st.Outs {
+				outs[o.Name] = Null()
+			}
+		case "join":
+			pad := 200
+			for _, o := range st.Outs {
+				if io.OutsTemplate != nil && io.OutsTemplate.K == VObj {
+					if tv := io.OutsTemplate.O[o.Name]; tv != nil && tv.K == VStr {
+						if io.WriteFile != nil {
+							io.WriteFile(tv.S, FileContent(tv.S, pad))
+						}
+						outs[o.Name] = Str(tv.S)
+						continue
+					}
+				}
+				outs[o.Name] = filewValue(p, io, o.T, n, io.FilesPath, o.Name, &pad)
+			}
+			// the join reads the chunk files (they must still exist)
+			if io.CheckFile != nil {
+				for _, co := range io.ChunkOuts {
+					for _, pth := range collectPaths(co, nil) {
+						io.CheckFile(pth)
+					}
+				}
+			}
+			if io.WriteFile != nil && io.TempPath != "" {
+				io.WriteFile(io.TempPath+"/join.tmp", FileContent(io.TempPath+"/join.tmp", 11))
+			}
+		}
+	case "FILER":
+		// consumes files: every path named anywhere in the arguments must be
+		// readable and intact
+		var cnt int64
+		for _, in := range st.Ins {
+			for _, pth := range collectPaths(argOf(io, in.Name), nil) {
+				cnt++
+				if io.CheckFile != nil {
+					io.CheckFile(pth)
+				}
+			}
+		}
+		outs[st.Outs[0].Name] = Int(cnt)
 	case "CTRL":
 		outs["p"] = Bool(argOf(io, "a").Int() > 0)
 		outs["q"] = Bool(argOf(io, "b").Int() > 0)
